@@ -6,7 +6,12 @@
 // emitted layer is gunzipped and untarred by the standard library, and the
 // entry lists are handed to Corr/C10.v, which flattens the layers with the
 // reference extractor and compares with the single-layer build (modulo the
-// content of etc/apko.json, which records the layering request itself).
+// content of etc/apko.json, which records the layering request itself), and
+// demands every non-directory entry in exactly the layer of its owner's group.
+// Ownership is taken from the PACKAGES' own file lists (synthrepo knows what
+// each package ships), not from tarfs's Package() side channel; the groups are
+// those of the real groupByOriginAndSize on the installed packages (read back
+// from lib/apk/db/installed of the single-layer image).
 package main
 
 import (
@@ -17,10 +22,14 @@ import (
 	"log/slog"
 	"os"
 	"path/filepath"
+	"sort"
+	"strconv"
+	"strings"
 	"time"
 
 	"github.com/chainguard-dev/clog"
 
+	"chainguard.dev/apko/pkg/apk/apk"
 	"chainguard.dev/apko/pkg/build"
 	"chainguard.dev/apko/pkg/build/types"
 	"chainguard.dev/apko/pkg/tarfs"
@@ -57,6 +66,12 @@ func e2eUniverse(name string) []*synthrepo.Pkg {
 		}
 	case "shared":
 		return []*synthrepo.Pkg{
+			// ships the files apko rewrites after installation (mutateAccounts): they stay this package's files
+			{Name: "base-layout", Version: "20240101-r0", Origin: "base-layout", Files: []synthrepo.File{
+				dirF("etc"), regF("etc/passwd", "root:x:0:0:root:/root:/bin/sh\n", 0o644), regF("etc/group", "root:x:0:root\n", 0o644),
+				regF("etc/os-release", "ID=synth\nNAME=\"Synth\"\nVERSION_ID=1\n", 0o644), regF("etc/layout-marker", "m", 0o644),
+				dirF("root"), dirF("var"), dirF("var/empty"),
+			}},
 			{Name: "base", Version: "1.0-r0", Origin: "base", Files: []synthrepo.File{
 				{Name: "etc", Type: tar.TypeDir, Mode: 0o755, ModTime: t(1)}, regF("etc/base.conf", "hello\n", 0o644),
 				{Name: "usr", Type: tar.TypeDir, Mode: 0o755, ModTime: t(2)}, {Name: "usr/bin", Type: tar.TypeDir, Mode: 0o755, ModTime: t(3)},
@@ -90,7 +105,8 @@ func e2eWorlds(universe string) [][]string {
 	case "tiny":
 		return [][]string{{"one"}}
 	case "shared":
-		return [][]string{{"app"}, {"app", "app-doc", "lib1", "lib2", "newlib", "other"}, {"lib1", "newlib", "lib2", "other"}}
+		return [][]string{{"app"}, {"base-layout", "app", "app-doc", "lib1", "lib2", "newlib", "other"}, {"lib1", "newlib", "lib2", "other"},
+			{"base-layout", "lib1"}}
 	}
 	return nil
 }
@@ -123,7 +139,7 @@ func newE2EEnv(tmp string) (*e2eEnv, error) {
 }
 
 // one real build; budget < 0 means: no layering block (the single-layer path)
-func (e *e2eEnv) build(c *e2eCase, budget int, n int) (layers [][]tarcase.Ent, err error) {
+func (e *e2eEnv) build(c *e2eCase, budget int, n int) (layers [][]tarcase.Ent, installedDB string, err error) {
 	defer func() {
 		if r := recover(); r != nil {
 			err = fmt.Errorf("panic: %v", r)
@@ -148,7 +164,7 @@ func (e *e2eEnv) build(c *e2eCase, budget int, n int) (layers [][]tarcase.Ent, e
 			{Path: "/work", Type: "directory", UID: 65532, GID: 65532, Permissions: 0o750},
 			{Path: "/work/sub/dir", Type: "directory", UID: 0, GID: 0, Permissions: 0o755, Recursive: true},
 			{Path: "/usr/lib/unowned.conf", Type: "empty-file", UID: 0, GID: 0, Permissions: 0o644},
-			{Path: "/usr/bin/link-to-tool", Type: "symlink", Source: "/usr/bin/tool", UID: 0, GID: 0},
+			{Path: "/work/link-to-tool", Type: "symlink", Source: "/usr/bin/tool", UID: 0, GID: 0},
 		}
 	}
 	if budget >= 0 {
@@ -156,7 +172,7 @@ func (e *e2eEnv) build(c *e2eCase, budget int, n int) (layers [][]tarcase.Ent, e
 	}
 	tmp, err := os.MkdirTemp(e.tmp, fmt.Sprintf("b%d-", n))
 	if err != nil {
-		return nil, err
+		return nil, "", err
 	}
 	defer os.RemoveAll(tmp)
 	opts := []build.Option{build.WithImageConfiguration(ic), build.WithArch(types.ParseArchitecture("amd64")),
@@ -166,20 +182,107 @@ func (e *e2eEnv) build(c *e2eCase, budget int, n int) (layers [][]tarcase.Ent, e
 	}
 	bc, err := build.New(ctx, tarfs.New(), opts...)
 	if err != nil {
-		return nil, fmt.Errorf("new: %w", err)
+		return nil, "", fmt.Errorf("new: %w", err)
 	}
 	ls, err := bc.BuildLayers(ctx)
 	if err != nil {
-		return nil, fmt.Errorf("build: %w", err)
+		return nil, "", fmt.Errorf("build: %w", err)
 	}
 	for _, l := range ls {
 		ents, _, ok := tarcase.ReadLayer(l, "", c)
 		if !ok {
-			return nil, fmt.Errorf("layer unreadable")
+			return nil, "", fmt.Errorf("layer unreadable")
 		}
 		layers = append(layers, ents)
+		if rc, err := l.Uncompressed(); err == nil {
+			tr := tar.NewReader(rc)
+			for {
+				h, err := tr.Next()
+				if err != nil {
+					break
+				}
+				if h.Name == "lib/apk/db/installed" {
+					b, _ := io.ReadAll(tr)
+					installedDB = string(b)
+				}
+			}
+			rc.Close()
+		}
 	}
-	return layers, nil
+	return layers, installedDB, nil
+}
+
+// the installed packages, as the image's own database lists them (P/V/o/I/r lines)
+func parseInstalled(db string) []*apk.Package {
+	var out []*apk.Package
+	var cur *apk.Package
+	flush := func() {
+		if cur != nil && cur.Name != "" {
+			out = append(out, cur)
+		}
+		cur = nil
+	}
+	for _, line := range strings.Split(db, "\n") {
+		if line == "" {
+			flush()
+			continue
+		}
+		if len(line) < 2 || line[1] != ':' {
+			continue
+		}
+		if cur == nil {
+			cur = &apk.Package{}
+		}
+		v := line[2:]
+		switch line[0] {
+		case 'P':
+			cur.Name = v
+		case 'V':
+			cur.Version = v
+		case 'o':
+			cur.Origin = v
+		case 'I':
+			n, _ := strconv.ParseUint(v, 10, 64)
+			cur.InstalledSize = n
+		case 'r':
+			cur.Replaces = strings.Fields(v)
+		}
+	}
+	flush()
+	return out
+}
+
+// path -> owning package, from what the installed packages ship (non-directories only)
+func ownershipOracle(universe string, installed []*apk.Package) (terms []string, clash []string) {
+	inst := map[string]bool{}
+	for _, p := range installed {
+		inst[p.Name] = true
+	}
+	owner := map[string]string{}
+	for _, p := range e2eUniverse(universe) {
+		if !inst[p.Name] {
+			continue
+		}
+		for _, f := range p.Files {
+			if f.Type == tar.TypeDir {
+				continue
+			}
+			name := strings.TrimSuffix(f.Name, "/")
+			if prev, ok := owner[name]; ok && prev != p.Name {
+				clash = append(clash, name)
+			}
+			owner[name] = p.Name
+		}
+	}
+	var paths []string
+	for k := range owner {
+		paths = append(paths, k)
+	}
+	sort.Strings(paths)
+	for _, k := range paths {
+		terms = append(terms, gal.Pair(tarcase.PathTerm(k), gal.Str(owner[k])))
+	}
+	return terms, clash
 }
 
 func ptr[T any](v T) *T { return &v }
@@ -205,6 +308,9 @@ func e2eStage(out string, seed uint64, tier string) error {
 			variants := []e2eCase{{}}
 			if u == "shared" && wi == 1 {
 				variants = []e2eCase{{}, {Accounts: true, Paths: true}, {BuildRepo: true}, {ExtraBuild: true}}
+			}
+			if u == "shared" && wi == 3 {
+				variants = []e2eCase{{}, {Accounts: true}}
 			}
 			if tier == "thorough" && u == "shared" {
 				variants = []e2eCase{{}, {Accounts: true}, {Paths: true, Accounts: true}, {BuildRepo: true}, {ExtraBuild: true}, {BuildRepo: true, Accounts: true, Paths: true}}
@@ -233,27 +339,52 @@ func e2eStage(out string, seed uint64, tier string) error {
 		}
 	}
 	_ = seed
-	singles := map[string][]tarcase.Ent{}
+	type singleBuild struct {
+		ents      []tarcase.Ent
+		installed []*apk.Package
+		own       []string
+	}
+	singles := map[string]*singleBuild{}
 	n, built, totalLayers, totalEnts := 0, 0, 0, 0
 	for _, c := range cases {
 		c := c
 		key := fmt.Sprintf("%s|%v|%v|%v|%v|%v", c.Universe, c.World, c.BuildRepo, c.ExtraBuild, c.Accounts, c.Paths)
-		single, ok := singles[key]
+		sb, ok := singles[key]
 		if !ok {
 			n++
-			ls, err := env.build(&c, -1, n)
+			ls, db, err := env.build(&c, -1, n)
 			if err != nil || len(ls) != 1 {
 				tarcase.ImplViolation("e2e-single-layer-build-fails", map[string]any{"case": c, "err": fmt.Sprint(err), "layers": len(ls)})
 				continue
 			}
-			single = ls[0]
-			singles[key] = single
+			sb = &singleBuild{ents: ls[0], installed: parseInstalled(db)}
+			var clash []string
+			sb.own, clash = ownershipOracle(c.Universe, sb.installed)
+			if len(clash) > 0 || len(sb.installed) == 0 {
+				fmt.Fprintf(os.Stderr, "c10 e2e: corpus bug in %s: overlapping files %v / %d installed packages\n", c.Name, clash, len(sb.installed))
+				os.Exit(3)
+			}
+			singles[key] = sb
 		}
 		n++
-		layers, err := env.build(&c, c.Budget, n)
+		layers, _, err := env.build(&c, c.Budget, n)
 		if err != nil {
 			tarcase.ImplViolation("e2e-layered-build-fails", map[string]any{"case": c, "err": err.Error()})
 			continue
+		}
+		// the groups of the real grouping on the installed packages
+		var groups [][]*apk.Package
+		func() {
+			defer func() { _ = recover() }()
+			groups, _ = build.VerifC10GroupByOriginAndSize(sb.installed, c.Budget)
+		}()
+		gsItems := make([]string, len(groups))
+		for i, g := range groups {
+			names := make([]string, len(g))
+			for j, p := range g {
+				names[j] = p.Name
+			}
+			gsItems[i] = gal.StrList(names)
 		}
 		items := make([]string, len(layers))
 		nent := 0
@@ -261,12 +392,13 @@ func e2eStage(out string, seed uint64, tier string) error {
 			items[i] = tarcase.EntsTerm(l)
 			nent += len(l)
 		}
-		term := fmt.Sprintf("{| e_budget := %s; e_single := %s;\n     e_layers := %s |}", gal.Z(int64(c.Budget)), tarcase.EntsTerm(single), gal.List(items))
-		cl := fmt.Sprintf("e2e:%s:pkgs=%d", c.Universe, len(c.World))
+		term := fmt.Sprintf("{| e_budget := %s; e_gs := %s;\n     e_own := %s;\n     e_single := %s;\n     e_layers := %s |}",
+			gal.Z(int64(c.Budget)), gal.List(gsItems), gal.List(sb.own), tarcase.EntsTerm(sb.ents), gal.List(items))
+		cl := fmt.Sprintf("e2e:%s:pkgs=%d", c.Universe, len(sb.installed))
 		switch {
 		case c.Budget == 0:
 			cl += ":budget=0"
-		case c.Budget < len(c.World):
+		case c.Budget < len(sb.installed):
 			cl += ":budget<n"
 		default:
 			cl += ":budget>=n"
@@ -274,7 +406,10 @@ func e2eStage(out string, seed uint64, tier string) error {
 		if c.BuildRepo || c.ExtraBuild {
 			cl += ":build-repo"
 		}
-		w.Add(gal.Case{Term: term, Desc: c, Class: cl, Trivial: len(single) < 5})
+		if c.Accounts {
+			cl += ":accounts"
+		}
+		w.Add(gal.Case{Term: term, Desc: c, Class: cl, Trivial: len(sb.ents) < 5})
 		totalLayers += len(layers)
 		totalEnts += nent
 		built++
